@@ -104,6 +104,20 @@ pub fn candidates(seed: u64) -> Vec<Value> {
         let order: Vec<u64> = if k < 2 { (0..mx).collect() } else { (0..mx).rev().collect() };
         out.push(json!({"case": "dtree_cnf", "cnf": cnf, "order": order}));
     }
+    // sibling clauses over the SAME w variables (every variable is cut at their parent, both children of it yield no vtree),
+    // for every width 2..40, alone and under a node that cuts one more variable; with a separate component and a unit clause
+    for w in 2..=40i64 {
+        let a: Vec<i64> = (1..=w).collect();
+        let b: Vec<i64> = (1..=w).map(|v| -v).collect();
+        let order: Vec<u64> = if w % 2 == 0 { (0..w as u64).collect() } else { (0..w as u64).rev().collect() };
+        out.push(json!({"case": "dtree_cnf", "cnf": [a.clone(), b.clone()], "order": order}));
+        if w % 3 == 0 {
+            let mut a2 = a.clone(); a2.push(w + 1);
+            let cnf = vec![vec![w + 1, w + 2], a2, b.clone(), vec![w + 3, -(w + 4)], vec![w + 5]];
+            let order: Vec<u64> = (0..(w + 5) as u64).collect();
+            out.push(json!({"case": "dtree_cnf", "cnf": cnf, "order": order}));
+        }
+    }
     // labels beyond 64 (variable sets are bit sets)
     for _ in 0..30 {
         let pool: Vec<i64> = vec![1, 2, 3, 33, 63, 64, 65, 66, 70, 129, 130];
